@@ -188,7 +188,10 @@ def run(ctx):
                 "10 integer types, constant comparisons, `_ =`, nested blocks, constant expressions, globals read/written at "
                 "several call depths, closures, late/shadowing declarations, methods, indexed stores, try/catch, defer, "
                 "run-time errors, constants and typed values of another numeric type assigned to numeric locals and parameters; "
-                "store-boundary probe programs (numeric kind x declaration form x assigned value); plus the tests/ corpus "
+                "store-boundary probe programs (numeric kind x declaration form x assigned value); const-named binder "
+                "probes (variadic / ordinary parameter or receiver carrying the name of a package-level const x "
+                "defer / go / channel / capturing closure / none x read position x const declared before or after); "
+                "plus the tests/ corpus "
                 "through the `ego test` pipeline. primitive level: distinct (mode, destination value, operand) triples run "
                 "through the name-based and the register opcode",
         "samples": ((st.get("samples") or [])[:3] + (samples or [])[:3]),
